@@ -302,6 +302,9 @@ impl<'c, E: TElemT> TInterp<'c, E> {
                     self.table = c;
                 } else {
                     let mut c = c;
+                    if Self::dump_of(&c).n_deleted() > 0 {
+                        self.labels |= dump::L_CLONE_FROM_DIFF;
+                    }
                     c.clone_from(&self.table);
                     self.table = c;
                 }
@@ -1240,6 +1243,9 @@ pub fn run_typed<E: TElemT>(case: &Case) -> Outcome {
     world::install_panic_hook();
     world::reset();
     let mut it: TInterp<'_, E> = TInterp::new(case);
+    // under inconsistent answers of the caller's hash / eq closures every violation is one of C05
+    let chaos = case.h("chaos") != 0;
+    let relabel = |v: Violation| if chaos && v.property != "C05" { Violation { property: "C05", kind: format!("chaos:{}", v.kind), ..v } } else { v };
     let mut violation = None;
     let mut steps = 0;
     for (i, op) in case.ops.iter().enumerate() {
@@ -1255,13 +1261,13 @@ pub fn run_typed<E: TElemT>(case: &Case) -> Outcome {
         let mut out = std::mem::take(&mut it.out);
         std::mem::forget(it);
         out.labels = labels;
-        out.violation = Some(v);
+        out.violation = Some(relabel(v));
         out.steps = steps;
         world::with(|w| w.quiet = 0);
         return out;
     }
     let (mut out, v) = it.finish(steps);
-    out.violation = v;
+    out.violation = v.map(relabel);
     out.steps = steps;
     out
 }
